@@ -182,13 +182,28 @@ impl Gen {
                         Arc::new(v)
                     }).collect();
                     let idx: Vec<usize> = (0..k.fields.len()).filter(|i| !tv[*i].is_empty()).collect();
-                    if idx.len() >= 3 && idx.len() <= 9 {
+                    // wider kinds: the same over narrower value sets (every enumerant and flag bit; for numbers the two ends,
+                    // the sign / top bit and the values the protocol documents as special), so that a condition on three
+                    // fields of a 15- or 30-field packet is met as well
+                    let wide = idx.len() > 9;
+                    let tv: Vec<Arc<Vec<Val>>> = if !wide { tv } else {
+                        k.fields.iter().enumerate().map(|(fi, f)| {
+                            let full = &tv[fi];
+                            let v: Vec<Val> = match &f.ty {
+                                Ty::Enum { .. } | Ty::Flags { .. } => (**full).clone(),
+                                Ty::U8 => { let mut v = vec![Val::N(0), Val::N(0x80), Val::N(0xff)]; for x in &f.notable { if !v.contains(&Val::N(*x)) { v.push(Val::N(*x)); } } v },
+                                _ => { let mut v: Vec<Val> = vec![]; if let Some(a) = full.first() { v.push(a.clone()); } if full.len() > 1 { v.push(full[full.len() - 1].clone()); } if full.len() > 2 { v.push(full[full.len() / 2].clone()); } v },
+                            };
+                            Arc::new(v)
+                        }).collect()
+                    };
+                    if idx.len() >= 3 {
                         for a in 0..idx.len() {
                             for b2 in (a + 1)..idx.len() {
                                 for c in (b2 + 1)..idx.len() {
                                     let (i, j, l) = (idx[a], idx[b2], idx[c]);
                                     let n = (tv[i].len() * tv[j].len() * tv[l].len()) as u64;
-                                    if n > 40_000 { continue; }
+                                    if n > 40_000 || (wide && n > 4_000) { continue; }
                                     blocks.push(Block {
                                         kind: ki,
                                         baseline: b,
